@@ -95,3 +95,66 @@ Proof.
     try change (mem_str "Fr" ["Fr"]) with true; cbv iota;
     destruct (args_to_json vars' args) as [j|e]; try reflexivity.
 Qed.
+
+(** * Selections are independent: each occurrence of the field is parsed from its own arguments *)
+From Thunder Require Import Args.ProofsReject.
+
+Section Independent.
+  Variable b64 : string -> option (list Z).
+  Variable tdec : string -> option tval.
+  Variable xdec : string -> option string.
+  Variable t : ty.
+  Variable vars' : list (string * jv).
+  Notation parse := (parse b64 tdec xdec).
+  Notation parse_all := (parse_all b64 tdec xdec).
+
+  Notation own_outcome := (own_outcome b64 tdec xdec t vars').
+
+  Lemma parse_all_ok S C :
+    Forall2 (occ_rel vars') S C ->
+    forall vs, parse_all t C = Ok vs <-> Forall2 (fun sf v => own_outcome sf (Ok v)) S vs.
+  Proof.
+    induction 1 as [|sf [f j] S C [Hf Hj] HF IH]; intros vs.
+    - cbn [Model.parse_all]. split; intros H.
+      + inversion H; subst. constructor.
+      + inversion H; subst. reflexivity.
+    - cbn [Model.parse_all snd] in *. split; intros H.
+      + destruct (parse t j) as [v|e] eqn:E; [|discriminate].
+        destruct (parse_all t C) as [vs'|e] eqn:E2; [|discriminate]. inversion H; subst.
+        constructor; [exists j; auto | apply IH; reflexivity].
+      + inversion H as [|? v ? vs' (j' & Hj' & Hp) HR]; subst.
+        rewrite Hj in Hj'. inversion Hj'; subst. rewrite Hp.
+        apply IH in HR. rewrite HR. reflexivity.
+  Qed.
+
+  Lemma parse_all_err S C :
+    Forall2 (occ_rel vars') S C ->
+    forall sf e, In sf S -> own_outcome sf (Err e) -> parse_all t C = Err EArgs.
+  Proof.
+    induction 1 as [|sf0 [f j] S C [Hf Hj] HF IH]; intros sf e Hin Ho; [contradiction|].
+    cbn [Model.parse_all snd] in *. destruct Hin as [<- | Hin].
+    - destruct Ho as (j' & Hj' & Hp). rewrite Hj in Hj'. inversion Hj'; subst. rewrite Hp.
+      f_equal. eapply parse_err_args; exact Hp.
+    - destruct (parse t j) as [v|e'] eqn:E.
+      + rewrite (IH sf e Hin Ho). reflexivity.
+      + f_equal. eapply parse_err_args; exact E.
+  Qed.
+End Independent.
+
+(** A request that selects the field any number of times (aliases, inline and named fragments): it is accepted
+    exactly when every occurrence, taken on its own with its own arguments, is accepted, each resolver then
+    receives the value of its own arguments; and one occurrence whose own arguments are refused makes the
+    request fail with the argument error, wherever it stands and whatever the other occurrences look like. *)
+Theorem selections_independent b64 tdec xdec t vars vars' d p fuel :
+  apply_defaults (d_defs d) vars vars = Ok vars' -> parse_doc vars d = Ok p ->
+  let occs := flat_map (sfields fuel (d_frags d)) (d_body d) in
+  (forall vs, parse_all b64 tdec xdec t (doc_fields fuel p) = Ok vs <->
+              Forall2 (fun sf v => own_outcome b64 tdec xdec t vars' sf (Ok v)) occs vs) /\
+  (forall sf e, In sf occs -> own_outcome b64 tdec xdec t vars' sf (Err e) ->
+                parse_all b64 tdec xdec t (doc_fields fuel p) = Err EArgs).
+Proof.
+  intros HA HP occs. pose proof (arguments_independent_of_place vars vars' d p fuel HA HP) as HF.
+  split.
+  - apply parse_all_ok. exact HF.
+  - apply parse_all_err. exact HF.
+Qed.
